@@ -300,8 +300,12 @@ ENTRY(h_c13){
             gP.k[p][d] = chooseK();
             gP.pos[p][d] = cfg.getBoxCorner()[d] + Real(gP.k[p][d]) * (cfg.getLeafWidths()[d] / Real(2));
         }
-        tree.applyToAllLeaves([&](auto&& hdr, const long* pidx, auto&& data, auto&&){
-            for(long i = 0; i < hdr.nbParticles; ++i) for(int d = 0; d < DIM; ++d) data[d][i] = static_cast<DataT>(gP.pos[pidx[i]][d]);
+        U pre[NPART][NRHS > 0 ? NRHS : 1];
+        tree.applyToAllLeaves([&](auto&& hdr, const long* pidx, auto&& data, auto&& rhs){
+            for(long i = 0; i < hdr.nbParticles; ++i){
+                for(int d = 0; d < DIM; ++d) data[d][i] = static_cast<DataT>(gP.pos[pidx[i]][d]);
+                for(int r = 0; r < NRHS; ++r) pre[pidx[i]][r] = rhs[r][i];
+            }
         });
         tree.rebuild();
         // equivalent to a fresh tree of the edited particles
@@ -310,16 +314,37 @@ ENTRY(h_c13){
         checkStructure(tree, space, leafIdx, a0, a1 != 0);
         bool kept = true, mz = true, lz = true;
         tree.applyToAllLeaves([&](auto&& hdr, const long* pidx, auto&&, auto&& rhs){
-            for(long i = 0; i < hdr.nbParticles; ++i) for(int r = 0; r < NRHS; ++r) kept = kept & (rhs[r][i] == U(c) * U(r + 1) * (total - gP.w[pidx[i]]));
+            for(long i = 0; i < hdr.nbParticles; ++i) for(int r = 0; r < NRHS; ++r){
+                kept = kept & (rhs[r][i] == pre[pidx[i]][r]);
+#if ORD != 1
+                kept = kept & (rhs[r][i] == U(c) * U(r + 1) * (total - gP.w[pidx[i]]));
+#endif
+            }
         });
         tree.applyToAllCells([&](const long, auto&&, auto&& mOpt, auto&& lOpt){ mz = mz && mOpt->get()[0] == 0; lz = lz && lOpt->get()[0] == 0; });
         irsym_assert(kept, R_RHS_KEPT); irsym_assert(mz, R_ZERO_M); irsym_assert(lz, R_ZERO_L);
         gReg.scan(tree);
         algo.execute(tree);
         bool twice = true;
+#if ORD == 1
+        // periodic ordering without the top-tree step: wrapped lists make a pair interact through several images, so the closed form of the
+        // non-periodic case does not apply; the oracle is a fresh tree of the edited particles, executed once: rebuilt = kept + fresh
+        U fr[NPART][NRHS > 0 ? NRHS : 1];
+        {
+            Tree fresh(cfg, gP.pos, a0, a1 != 0);
+            algo.execute(fresh);
+            fresh.applyToAllLeaves([&](auto&& hdr, const long* pidx, auto&&, auto&& rhs){
+                for(long i = 0; i < hdr.nbParticles; ++i) for(int r = 0; r < NRHS; ++r) fr[pidx[i]][r] = rhs[r][i];
+            });
+        }
+        tree.applyToAllLeaves([&](auto&& hdr, const long* pidx, auto&&, auto&& rhs){
+            for(long i = 0; i < hdr.nbParticles; ++i){ for(int r = 0; r < NRHS; ++r) twice = twice & (rhs[r][i] == pre[pidx[i]][r] + fr[pidx[i]][r]); irsym_observe(rhs[0][i]); irsym_observe(pidx[i]); }
+        });
+#else
         tree.applyToAllLeaves([&](auto&& hdr, const long* pidx, auto&&, auto&& rhs){
             for(long i = 0; i < hdr.nbParticles; ++i){ for(int r = 0; r < NRHS; ++r) twice = twice & (rhs[r][i] == U(c + 1) * U(r + 1) * (total - gP.w[pidx[i]])); irsym_observe(rhs[0][i]); irsym_observe(pidx[i]); }
         });
+#endif
         irsym_assert(twice, R_RHS_TWICE);
     }
 }
